@@ -847,6 +847,27 @@ fn main() {
     let stdout = io::stdout();
     let mut out = io::BufWriter::new(stdout.lock());
     let mut st = St { objs: HashMap::new() };
+    // watchdog: a single request that does not answer within the limit aborts the process; the
+    // orchestrator attributes the abort to the request (non-termination is a failure of the oracle)
+    let limit: u64 = std::env::var("HARNESS_REQUEST_LIMIT_S").ok().and_then(|s| s.parse().ok()).unwrap_or(20);
+    let progress = std::sync::Arc::new(std::sync::atomic::AtomicU64::new(0));
+    {
+        let progress = progress.clone();
+        std::thread::spawn(move || {
+            let mut last = 0u64;
+            let mut since = std::time::Instant::now();
+            loop {
+                std::thread::sleep(std::time::Duration::from_millis(250));
+                let cur = progress.load(std::sync::atomic::Ordering::Relaxed);
+                if cur != last {
+                    last = cur;
+                    since = std::time::Instant::now();
+                } else if cur % 2 == 1 && since.elapsed().as_secs() >= limit {
+                    std::process::exit(97);
+                }
+            }
+        });
+    }
     for line in stdin.lock().lines() {
         let line = line.unwrap();
         let line = line.trim_end();
@@ -854,6 +875,7 @@ fn main() {
             continue;
         }
         let t: Vec<&str> = line.split(' ').collect();
+        progress.fetch_add(1, std::sync::atomic::Ordering::Relaxed); // odd = a request is running
         let res: Result<Res, _> = catch_unwind(AssertUnwindSafe(|| match t[0] {
             "case" => {
                 st.objs.clear();
@@ -890,6 +912,8 @@ fn main() {
             }
         };
         writeln!(out, "{}", s).unwrap();
+        out.flush().unwrap();
+        progress.fetch_add(1, std::sync::atomic::Ordering::Relaxed); // even = idle
     }
     out.flush().unwrap();
 }
